@@ -17,6 +17,31 @@ def rule_fresh(ctx):
                      "Identifier::new), from the counter just incremented (only in fresh_identifier) or from the id of an existing "
                      "identifier; so generated ids are strictly above every existing id and never reused")
     n_store = 0
+    # the functions that hand out fresh identifiers, found by what they do rather than by their name: they increment the counter
+    # behind a `&mut ID` by exactly one and build an identifier whose id is read from that counter
+    fresh_fns = set()
+    for key, f in sorted(fx.fns.items()):
+        if f["crate"] not in ID_CRATES or "{" in key:
+            continue
+        incs, idents = 0, 0
+        fn0 = None
+        for b in f["blocks"]:
+            for s in b["stmts"]:
+                if s["k"] != "assign":
+                    continue
+                if s["lhs"]["p"] == ["*"] and f["locals"][s["lhs"]["l"]]["ty"] == "&mut usize":
+                    fn0 = fn0 or Fn(f)
+                    incs += 1 if _is_increment(fn0, s) else -100
+                rv = s["rv"]
+                if rv["k"] == "agg" and rv.get("agg") == "adt" and rv["adt"] in IDENT_ADTS:
+                    fn0 = fn0 or Fn(f)
+                    if _id_class(fn0, rv["ops"][rv["fields"].index("id")]) <= {"COUNTER", "OTHER"}:
+                        idents += 1
+        if incs >= 1 and idents >= 1:
+            fresh_fns.add(key)
+    if not fresh_fns:
+        raise AnalysisError("R-FRESH: no function increments an identifier counter by one and builds an identifier from it")
+    FRESH_FNS = tuple(sorted(fresh_fns))
     for key, f in sorted(fx.fns.items()):
         if f["crate"] not in ID_CRATES or "{promoted" in key:
             continue
@@ -63,8 +88,8 @@ def rule_fresh(ctx):
                     ikey = "%s@Identifier" % key
                     cls = _id_class(fn, idop)
                     allowed = {"EXISTING"}
-                    if base.endswith("::names::Identifier::new"):
-                        allowed = {"ZERO"}
+                    if (f.get("impl_self_adt") in IDENT_ADTS and not f.get("impl_trait")) and base not in FRESH_FNS:
+                        allowed = {"ZERO", "EXISTING"}      # the constructors of the identifier type itself
                     elif base in FRESH_FNS:
                         allowed = {"COUNTER", "OTHER"}      # the counter after its own increment (shape checked at the store)
                     if cls <= allowed and cls:
